@@ -23,7 +23,7 @@ RULE = ('random inputs over the whole documented range (altitude 0-25 km dense a
         'monotone thrust category, MEEM finite/non-negative/linear; array calls (any shape, mixed layers, integer altitudes, per-point atmosphere) equal element-wise scalar references, inputs are left unmodified, results do not depend on position in the array; class = function x '
         'branch reached (branch taken by the reference)')
 ASSUMPTIONS = [
-    'calibration fuel flows are either exactly equal or >= 2 % apart (nearly equal flows '
+    'calibration fuel flows are equal, equal up to a few ulps, or >= 2 % apart (nearly equal flows '
     'give unbounded log-log slopes that no published method defines)',
     'the BFFM2 NOx fit is the single log-log least-squares line the source documents',
     'MEEM has no independent reference: only finite / non-negative / linear-scaling checks',
@@ -58,7 +58,8 @@ def required(tier):
           'hcco:scaling', 'hcco:low-thrust', 'hcco:non-positive-flow',
           'hcco:equal-calibration-flows', 'isa:array:mixed-layers', 'isa:array:integer-altitudes',
           'nox:per-point-atmosphere', 'nox:permutation', 'hcco:per-point-atmosphere',
-          'hcco:permutation', 'ffm2:array']
+          'hcco:permutation', 'ffm2:array', 'hcco:calibration-flows-equal-up-to-rounding',
+          'thrust-mode-values:non-standard-insertion-order']
     cl += [f'hcco:{b}' for b in HCCO_BRANCHES]
     return {'classes': cl, 'evaluations': 20000}
 
@@ -89,8 +90,16 @@ def run_shard(spec, rec):
     TM = {'idle': ThrustMode.IDLE, 'approach': ThrustMode.APPROACH, 'climb': ThrustMode.CLIMB,
           'takeoff': ThrustMode.TAKEOFF}
 
+    ord_rng = random.Random(0)
+
     def tmv(d):
-        return ThrustModeValues({TM[m]: float(d[m]) for m in MODES})
+        # a mapping may have been filled in any key order (take-off first, ...)
+        modes = list(MODES)
+        if ord_rng.random() < 0.5:
+            ord_rng.shuffle(modes)
+            if modes != list(MODES):
+                rec.cls('thrust-mode-values:non-standard-insertion-order')
+        return ThrustModeValues({TM[m]: float(d[m]) for m in modes})
 
     def gen_flows(rng):
         """calibration flows: monotone, non-monotone or with equal neighbours"""
@@ -105,6 +114,12 @@ def run_shard(spec, rec):
         elif kind == 'equal':
             i = rng.randrange(3)
             base[i + 1] = base[i]
+            if rng.random() < 0.5:
+                # equal up to rounding (0.3 vs 3*0.1, a unit round trip): a few ulps apart
+                for _ in range(rng.randint(1, 4)):
+                    base[i + 1] = math.nextafter(base[i + 1], rng.choice([0.0, math.inf]))
+                if rng.random() < 0.5:
+                    base[i], base[i + 1] = base[i + 1], base[i]
         return dict(zip(MODES, base)), kind
 
     def gen_eis(rng):
@@ -126,6 +141,7 @@ def run_shard(spec, rec):
     ks = [spec['only']] if 'only' in spec else range(spec['n'])
     for k in ks:
         rng = random.Random(f"{spec['seed']}-{k}")
+        ord_rng.seed(f"{spec['seed']}-{k}-order")
         case = {'spec': {'seed': spec['seed'], 'n': spec['n']}, 'k': k}
         try:
             # ---------------- ISA ---------------------------------------------------
@@ -380,6 +396,8 @@ def run_shard(spec, rec):
             rec.cls('hcco:scaling')
             if flow_kind == 'equal' and ff_cal['idle'] == ff_cal['approach']:
                 rec.cls('hcco:equal-calibration-flows')
+            elif flow_kind == 'equal' and abs(ff_cal['idle'] / ff_cal['approach'] - 1) < 1e-12:
+                rec.cls('hcco:calibration-flows-equal-up-to-rounding')
 
             # ---------------- SOx ------------------------------------------------------------
             S = rng.choice([0.0, 600.0, rng.uniform(0, 3000)])
